@@ -13,7 +13,11 @@ import vf
 PROP = "C33"
 SPEC = "JsScopes"
 HARNESS = [vf.kit("internal/util/javascript", "javascript"),
-           ("jsscopes/minify_test.go", "internal/util/javascript/zz_verif_c33_test.go")]
+           ("jsscopes/lex.go.tmpl", "internal/util/javascript/zz_verif_c33lex_test.go", "javascript"),
+           ("jsscopes/minify_test.go", "internal/util/javascript/zz_verif_c33_test.go"),
+           vf.kit("internal/server/assets", "assets"),
+           ("jsscopes/lex.go.tmpl", "internal/server/assets/zz_verif_c33lex_test.go", "assets"),
+           ("jsscopes/asset_test.go", "internal/server/assets/zz_verif_c33_test.go")]
 RUNJS = os.path.join(vf.VERIF, "harness", "jsscopes", "run.js")
 JVM = {"JAVA_TOOL_OPTIONS": "-XX:ParallelGCThreads=2 -Xmx3g -Xss64m"}
 ALLREF = '{"plain","tmpl","ntmpl","short","set","dot","optdot","key","method","getter","cls","regex","str"}'
@@ -137,24 +141,43 @@ def _judge(chk, sd, recs, label, shards, timeout):
     return bad, feats
 
 
-def _drive(sd, progs, files):
+def _drive(sd, progs, files, served):
+    """Level A: the real Minify on every program and every shipped script, both modes.  Level B: the programs `served`
+    (indices) and the shipped scripts fetched through the real asset handler, both modes."""
     tin = vf.write_ndjson(os.path.join(sd, "progs.ndjson"), [{"p": r["p"], "text": r["text"]} for r in progs])
+    sin = vf.write_ndjson(os.path.join(sd, "served.ndjson"), [{"p": progs[i]["p"], "text": progs[i]["text"]} for i in served])
     fin = vf.write_ndjson(os.path.join(sd, "files.in.ndjson"), [{"path": f} for f in files])
-    out = os.path.join(sd, "minify.out.ndjson")
+    out, outb = os.path.join(sd, "minify.out.ndjson"), os.path.join(sd, "asset.out.ndjson")
     ov = vf.make_overlay(sd, HARNESS)
-    p = vf.go_test(ov, "./internal/util/javascript/", "^TestVerifC33Minify$",
-                   env={"VERIF_IN": tin, "VERIF_OUT": out, "VERIF_FILES": fin}, timeout=1500)
-    if p.returncode != 0 or not os.path.exists(out):
-        raise vf.NoVerdict("driver failed (rc=%d)\n%s\n%s" % (p.returncode, p.stdout[-3000:], p.stderr[-3000:]))
+
+    def a():
+        return vf.go_test(ov, "./internal/util/javascript/", "^TestVerifC33Minify$",
+                          env={"VERIF_IN": tin, "VERIF_OUT": out, "VERIF_FILES": fin}, timeout=3000)
+
+    def b():
+        return vf.go_test(ov, "./internal/server/assets/", "^TestVerifC33Asset$",
+                          env={"VERIF_IN": sin, "VERIF_OUT": outb, "VERIF_FILES": fin}, timeout=3000)
+
+    with ThreadPoolExecutor(max_workers=2) as ex:
+        fa, fb = ex.submit(a), ex.submit(b)
+        pa, pb = fa.result(), fb.result()
+    for p, o in ((pa, out), (pb, outb)):
+        if p.returncode != 0 or not os.path.exists(o):
+            raise vf.NoVerdict("driver failed (rc=%d)\n%s\n%s" % (p.returncode, p.stdout[-3000:], p.stderr[-3000:]))
     log = vf.read_ndjson(out)
     gen = [r for r in log if "p" in r]
     fl = [r for r in log if "src" in r]
     if len(gen) != 2 * len(progs) or len(fl) != 2 * len(files) or any(gen[2 * i]["p"] != progs[i]["p"] for i in range(len(progs))):
-        raise vf.NoVerdict("driver did not run every program and every shipped script in both modes")
-    return gen, fl
+        raise vf.NoVerdict("level A driver did not run every program and every shipped script in both modes")
+    logb = vf.read_ndjson(outb)
+    genb = [r for r in logb if "p" in r]
+    flb = [r for r in logb if "src" in r]
+    if len(genb) != 2 * len(served) or len(flb) != 2 * len(files) or [r["short"] for r in flb] != [False] * len(files) + [True] * len(files):
+        raise vf.NoVerdict("level B driver did not serve every program and every shipped script in both modes")
+    return gen, fl, genb, flb
 
 
-def _node_run(jobs, nproc=4, timeout=900):
+def _node_run(jobs, nproc=4, timeout=2400):
     """jobs: [{"id","text","names"}] -> {id: obs}.  Anything going wrong here only loses observations."""
     parts = [jobs[k::nproc] for k in range(nproc) if jobs[k::nproc]]
 
@@ -191,23 +214,30 @@ def _show(s, n=400):
     return s[:n].replace("\n", "\\n")
 
 
-def _report_gen(chk, progs, gen, bad):
+def _report_gen(chk, progs, where, bad):
+    """where[i] = (program index, logged record) for contract record i"""
     for gi, keys in sorted(bad.items()):
-        pr, rec = progs[gi // 2], gen[gi]
+        pi, rec = where[gi]
+        pr = progs[pi]
+        how = "GET /assets/ of " if "status" in rec else "Minify("
         for key in sorted(set(keys)):
-            chk.violation(key, "Minify(%s, shortenNames=%s) = %s" % (_show(pr["text"]), rec["short"], _show(rec["text"])),
-                          {"p": pr["p"], "text": pr["text"], "short": rec["short"], "minified": rec["text"], "names": pr["names"]})
+            chk.violation(key, "%s%s, shortenNames=%s) = %s" % (how, _show(pr["text"]), rec["short"], _show(rec["text"])),
+                          {"p": pr["p"], "text": pr["text"], "short": rec["short"], "minified": rec["text"], "names": pr["names"],
+                           "served": "status" in rec})
 
 
-def _files_stage(chk, sd, fl, node, timeout):
-    path = vf.write_ndjson(os.path.join(sd, "files.ndjson"), [{k: r[k] for k in ("src", "short", "in", "out", "lexok", "same")} for r in fl])
-    rep = _contract(chk, sd, "JsTokens_Trace", "files.ndjson", path, "token integrity of the shipped scripts", timeout)
-    if int(rep["n"]) != len(fl):
-        raise vf.NoVerdict("token contract judged %s of %d records" % (rep["n"], len(fl)))
+def _files_stage(chk, sd, fl, flb, node, timeout):
+    keep = ("src", "short", "in", "out", "lexok", "same", "status")
+    allf = [dict((k, r[k]) for k in keep if k in r) for r in fl + flb]
+    path = vf.write_ndjson(os.path.join(sd, "files.ndjson"), allf)
+    rep = _contract(chk, sd, "JsTokens_Trace", "files.ndjson", path, "token integrity of the shipped scripts (Minify and asset handler)", timeout)
+    if int(rep["n"]) != len(allf):
+        raise vf.NoVerdict("token contract judged %s of %d records" % (rep["n"], len(allf)))
     for b in rep["bad"] if isinstance(rep["bad"], list) else []:
-        r = fl[b["idx"] - 1]
-        chk.violation(b["key"], "shipped %s minified with shortenNames=%s breaks token integrity (%s)" % (r["src"], r["short"], b["key"]),
-                      {"file": r["src"], "short": r["short"]})
+        r = allf[b["idx"] - 1]
+        lvl = "served by the asset handler" if "status" in r else "minified"
+        chk.violation(b["key"], "shipped %s %s with shortenNames=%s breaks token integrity (%s)" % (r["src"], lvl, r["short"], b["key"]),
+                      {"file": r["src"], "short": r["short"], "served": "status" in r})
     # self-test of the token contract: one identifier after a dot renamed, one token dropped
     r0 = dict((k, fl[1][k]) for k in ("src", "short", "in", "out", "lexok", "same"))
     outs = [dict(t) for t in r0["out"]]
@@ -277,22 +307,28 @@ def _node_stage(chk, progs, gen, bad, sample):
     return seen, agree
 
 
+def _recs(log):
+    return [dict((k, r[k]) for k in ("p", "short", "out", "same", "status") if k in r) for r in log]
+
+
 def _replay(chk, sd, path):
     rp = json.load(open(path)).get("replay") or {}
     files = _files()
     if "p" not in rp:
-        gen, fl = _drive(sd, [], files)
-        _files_stage(chk, sd, fl, shutil.which("node"), 900)
-        chk.cov.update(states=1, transitions=1, traces_validated_against_impl=len(fl), evaluations=len(fl), rule="replay of " + path)
+        gen, fl, genb, flb = _drive(sd, [], files, [])
+        _files_stage(chk, sd, fl, flb, shutil.which("node"), 2400)
+        chk.cov.update(states=1, transitions=1, traces_validated_against_impl=len(fl) + len(flb), evaluations=len(fl) + len(flb),
+                       rule="replay of " + path)
         chk.sample({"kind": "replayed shipped scripts", "files": [os.path.basename(f) for f in files]})
         return chk.finish()
     progs = [{"p": rp["p"], "text": rp["text"], "names": rp.get("names") or ["a", "b", "c"], "exp": None}]
-    gen, fl = _drive(sd, progs, files[:1])
-    recs = [{"p": r["p"], "short": r["short"], "out": r["out"], "same": r["same"]} for r in gen]
-    bad, _f = _judge(chk, sd, recs, "replay", 1, 900)
-    _report_gen(chk, progs, gen, bad)
-    chk.cov.update(states=1, transitions=1, traces_validated_against_impl=2, evaluations=2, rule="replay of " + path)
-    chk.sample({"kind": "replayed", "in": _show(rp["text"]), "plain": _show(gen[0]["text"]), "short": _show(gen[1]["text"])})
+    gen, fl, genb, flb = _drive(sd, progs, files[:1], [0])
+    where = [(0, r) for r in gen + genb]
+    bad, _f = _judge(chk, sd, _recs(gen + genb), "replay", 1, 2400)
+    _report_gen(chk, progs, where, bad)
+    chk.cov.update(states=1, transitions=1, traces_validated_against_impl=4, evaluations=4, rule="replay of " + path)
+    chk.sample({"kind": "replayed", "in": _show(rp["text"]), "plain": _show(gen[0]["text"]), "short": _show(gen[1]["text"]),
+                "served_short": _show(genb[1]["text"])})
     return chk.finish()
 
 
@@ -303,6 +339,7 @@ def run():
         "claimed: binding structure (every reference resolves to the declaration it resolved to before; renaming consistent per binding, capture-free; property names, file-scope names and globals keep their spelling; nothing renamed without shortenNames) and token integrity (same JavaScript token sequence, a shorthand {n} may become {n: m}) for the generated programs; token integrity for the shipped scripts",
         "not claimed: JavaScript evaluation semantics beyond name binding (automatic semicolon insertion, numeric semantics, with, eval, Function.prototype.toString); 'valid JavaScript' and 'same observable results' are observed only when node is on PATH (original and minified texts run in a fresh realm against the output TLC predicted; node --check of the minified shipped scripts) and node never is required",
         "programs are semicolon-terminated, sloppy-mode classic scripts over the constructs of JsScopes (var/let/const, destructuring, parameters with defaults, function declarations / expressions / arrows, blocks, catch, for-of, closures over outer names, object literals incl. shorthand / methods / getters, classes, template literals incl. nested, regex literals, optional chaining); pool names a, b, c collide with the short names the renamer generates",
+        "level B serves through Router.ServeHTTP + AssetsHandler in process (httptest recorder), one fresh file name per mode",
         "the output tokens come from the harness tokenizer (ECMAScript lexical grammar: template head/middle/tail, regex by previous token), independent of the minifier's",
     ]
     node = shutil.which("node")
@@ -337,12 +374,12 @@ def run():
         def one(item):
             name, (_names, cfg, kw) = item
             kw = dict(kw)
-            kw.setdefault("workers", 4 if name in ("core", "forms", "dflt") else 2)
-            r = vf.tlc(SPEC, "JsScopes_Gen", name + ".cfg", sd, timeout=3000 if thorough else 900, files={name + ".cfg": cfg}, env=JVM, **kw)
+            kw.setdefault("workers", (4 if thorough else 2) if name in ("core", "forms", "dflt") else 1)
+            r = vf.tlc(SPEC, "JsScopes_Gen", name + ".cfg", sd, timeout=5400 if thorough else 2400, files={name + ".cfg": cfg}, env=JVM, **kw)
             vf.log("tlc %-6s %6.1fs  %d states, %d records" % (name, r.wall, r.distinct, len(r.records)))
             return name, r
 
-        with ThreadPoolExecutor(max_workers=6) as ex:
+        with ThreadPoolExecutor(max_workers=4) as ex:      # generous timeouts: the machine is shared
             res = dict(ex.map(one, jobs.items()))
 
         what = {"core": "MC: every program over {a,b} x var/let/plain reference/function/block up to %d items" % (5 if thorough else 4),
@@ -389,16 +426,18 @@ def run():
         if len(progs) - nsim < 500 or nsim < 30:
             raise vf.NoVerdict("generators produced too little (%d exhaustive, %d simulated)" % (len(progs) - nsim, nsim))
         files = _files()
-        gen, fl = _drive(sd, progs, files)
-        vf.log("driver done at %.0fs: %d programs x 2 modes, %d shipped scripts x 2 modes" % (time.time() - chk.t0, len(progs), len(files)))
+        served = sorted(rnd.sample(range(len(progs)), min(len(progs), 3000 if thorough else 400)))
+        gen, fl, genb, flb = _drive(sd, progs, files, served)
+        vf.log("drivers done at %.0fs: %d programs x 2 modes (%d also served), %d shipped scripts x 2 modes x 2 levels"
+               % (time.time() - chk.t0, len(progs), len(served), len(files)))
 
-        to = 3000 if thorough else 900
-        recs = [{"p": r["p"], "short": r["short"], "out": r["out"], "same": r["same"]} for r in gen]
+        to = 5400 if thorough else 2400
+        where = [(i // 2, r) for i, r in enumerate(gen)] + [(served[i % len(served)], r) for i, r in enumerate(genb)]
         with ThreadPoolExecutor(max_workers=2) as ex:
-            fj = ex.submit(_judge, chk, sd, recs, "gen", 8 if thorough else 4, to)
-            ff = ex.submit(_files_stage, chk, sd, fl, node, to)
+            fj = ex.submit(_judge, chk, sd, _recs(gen + genb), "gen", 8 if thorough else 4, to)
+            ff = ex.submit(_files_stage, chk, sd, fl, flb, node, to)
             (bad, feats), parsed = fj.result(), ff.result()
-        _report_gen(chk, progs, gen, bad)
+        _report_gen(chk, progs, where, bad)
         for f in ("global-and-local-share-a-name", "file-scope-and-local-share-a-name", "two-locals-share-a-name", "locals"):
             if feats.get(f, 0) == 0 and not chk.cands:
                 raise vf.NoVerdict("the programs did not cover %s: %s" % (f, feats))
@@ -413,10 +452,11 @@ def run():
                                        "renamed, property renamed, two bindings merged, file-scope name renamed, renamed without shortenNames -> "
                                        "rejected with the right clause; three good pairs accepted); token contract: a renamed property and a dropped "
                                        "token in a shipped script rejected")
-        chk.cov["traces_validated_against_impl"] = len(gen) + len(fl)
-        chk.cov["evaluations"] = len(gen) + len(fl)
+        chk.cov["traces_validated_against_impl"] = len(gen) + len(genb) + len(fl) + len(flb)
+        chk.cov["evaluations"] = len(gen) + len(genb) + len(fl) + len(flb)
+        chk.cov["served_by_asset_handler"] = {"programs": len(served), "scripts": len(files), "modes": 2}
         chk.cov["distinct_nontrivial"] = sum(v for f, v in feats.items() if f != "no-locals")
-        chk.cov["programs"] = {"exhaustive": len(progs) - nsim, "simulated": nsim, "classes": feats,
+        chk.cov["generated_programs"] = {"exhaustive": len(progs) - nsim, "simulated": nsim, "classes": feats,
                                "max_items": max(len(q["p"]) for q in progs)}
         chk.cov["shipped_scripts"] = {"files": [os.path.basename(f) for f in files], "tokens": sum(len(r["in"]) for r in fl[::2]),
                                       "node_check_runs": parsed}
@@ -426,7 +466,7 @@ def run():
                            "programs met along %d simulated traces over the full alphabet (seed = VERIF_SEED), rendered with seeded white space and "
                            "comments, goes through the real Minify with and without shortenNames; the harness tokenizer projects the output to "
                            "tokens; JsScopes_Trace judges every pair; the shipped dashboard scripts go through both modes and JsTokens_Trace judges "
-                           "token integrity; distinct_nontrivial = records whose program has local bindings (counted by the contract)"
+                           "token integrity; distinct_nontrivial = distinct programs with local bindings (counted by the contract, once per program)"
                            % (nsim, NSIM_T if thorough else NSIM_Q))
         mid = len(progs) // 2
         chk.sample({"kind": "generated", "in": _show(progs[mid]["text"]), "plain": _show(gen[2 * mid]["text"]), "short": _show(gen[2 * mid + 1]["text"]),
